@@ -196,7 +196,44 @@ def _nt_init(ops):
     return _has(ops, lambda o: o["op"] == "reginit") and _has(ops, lambda o: o["op"] == "markdone")
 
 
+def prop_C17(tier, seed, rng):
+    import map_gen
+    quick = tier == "quick"
+    design = [design_check("MCPartMap", "MCPartMapQuick.cfg" if quick else "MCPartMap.cfg")]
+    s1, g1 = tlc_scripts("GenPartMap", "GenPartMap.cfg" if quick else "GenPartMapDeep.cfg", rng, 4000 if quick else 60000)
+    s2 = map_gen.generate(1500 if quick else 30000, seed + 4)
+    fams = [Family("tlc", "map", "MapTrace", s1, g1), Family("shaped", "map", "MapTrace", s2)]
+    return design, fams, ["C17_"], dict(
+        rule="scripts = (a) one per transition of the bounded PartMap.tla state graph, (b) shaped branching histories "
+             "over Map.Set/Delete/FromMap/Txn (MapTxn reused after Commit)/JSON/YAML and Set.Set/Delete/Union/"
+             "Difference with keys incl. the empty key and prefixes of one another, every value re-read at the end; "
+             "non-trivial = >= 3 derived values", nontrivial=lambda ops: sum(1 for o in ops if "j" in o) >= 3,
+        assumptions=["keys are valid UTF-8 strings (JSON/YAML round trips)", "values are ints"])
+
+
+def prop_C18(tier, seed, rng):
+    import enc_gen, db_gen
+    quick = tier == "quick"
+    design = [design_check("MCKeyEnc", "MCKeyEnc.cfg", workers=1)]
+    if not quick:
+        design.append(design_check("MCKeyEnc", "MCKeyEncDeep.cfg", workers=1))
+    tables = enc_gen.generate(tier, seed)
+    fams = [Family("encoders", "enc", "EncTrace", [ops for (_, ops) in tables]),
+            Family("index-order", "db", "DBTrace", db_gen.generate("c18", 60 if quick else 1000, seed + 18))]
+    return design, fams, ["C18"], dict(
+        rule="(a) TLC evaluates injectivity, order embedding and separability on the LOGGED composite keys of all "
+             "(secondary, primary) pairs over {00,01,02,ff} up to length 2 (thorough: also {00,01,02} up to 3) and of "
+             "random pair tables over all byte values; unsigned/signed/bool/string encoders and the LPM codec on boundary "
+             "and random values; (b) black box: non-unique index populated with such pairs, observed List/Prefix order "
+             "validated by DBTrace.tla; non-trivial = table with >= 2 rows",
+        nontrivial=lambda ops: len(ops) >= 2,
+        assumptions=["64-bit values are compared as sequences of 16-bit limbs (TLC integers are 32 bit)",
+                     "requirements are evaluated on the logged function, not by equality with the documented scheme"])
+
+
 PROPS = {
+    "C18": prop_C18,
+    "C17": prop_C17,
     "C01": _db_prop("C01", "c01", 300, 6000,
                     "shaped sequential histories over tables with primary, unique, multi-key non-unique, unique and "
                     "non-unique LPM indexes; snapshots are retained and the same queries re-issued after later "
